@@ -248,7 +248,9 @@ func (fi *FuncInfo) siblingConds(list []ast.Stmt, child ast.Node) []Cond {
 			// return nested under further conditions): what follows runs under a condition the forms above do
 			// not express — recorded as an opaque guard, so that "nothing else guards this" is not concluded
 			if l := fi.partialLeave(is); l != nil {
-				out = append(out, Cond{Kind: "may-leave", Expr: is.Cond, Neg: true, At: is})
+				// (an opaque operand, not the if's own condition: a reader of guards that does not look at Kind must
+				// not mistake "some paths under c leave" for "!c holds")
+				out = append(out, Cond{Kind: "may-leave", Expr: &ast.Ident{NamePos: is.Pos(), Name: "_mayLeave"}, Neg: true, At: is})
 			}
 		}
 	}
